@@ -22,6 +22,9 @@ for rel in sorted(walk(src)):
         print("new     ", rel)
     elif not filecmp.cmp(a, b, shallow=False):
         print("DIFFERS ", rel)
+def _kf_key(l):
+    m = re.search(r"key=(\S+)", l)
+    return m.group(1) if m else None
 def new_lines(rel):
     a = open(os.path.join(src, rel)).read().split("\n")
     b = open(os.path.join(dst, rel)).read().split("\n")
@@ -49,7 +52,10 @@ for l in new_lines("lean/Main.lean"):
     else:
         print("Main.lean ? unmerged:", l)
 open(p, "w").write(s)
+_have = {_kf_key(l) for l in open(os.path.join(dst, "known-findings.txt")).read().split("\n")} - {None}
 for l in new_lines("known-findings.txt"):
+    if _kf_key(l) in _have:
+        continue  # key already present (the text was edited here since the workspace was made)
     open(os.path.join(dst, "known-findings.txt"), "a").write(l + "\n")
     print("known-findings +", l[:100])
 for rel in ("harness/Cargo.toml",):
